@@ -2,6 +2,7 @@
 package main
 
 import (
+	"crypto/sha1"
 	"encoding/base64"
 	"fmt"
 	"net"
@@ -109,7 +110,7 @@ type c03case struct {
 
 func main() {
 	rep := kit.NewReport("C03", "exploration",
-		"5 protection lines (basicauth with dir / dir+slash / single file / block with exclude; internal) x every subset of size <=2 (thorough 3) of a 17-line menu of path-rewriting and content-producing directives (rewrite abs/relative/regexp, tryfiles, ext, index, gzip, browse with and without archives, templates, markdown, proxy, fastcgi, redir) x ~190 request targets (spellings of protected names, rewrite triggers, archive queries) x methods x Accept-Encoding x credentials {none, wrong user, wrong password, valid}; unique tokens in every protected file and backend reply; valid-credential responses compared with the unprotected site; distinct_nontrivial = outcome classes")
+		"5 protection lines (basicauth with dir / dir+slash / single file / block with exclude; internal) x every subset of size <=2 (thorough 3) of an 18-line menu of path-rewriting and content-producing directives (rewrite abs/relative/regexp, tryfiles, ext, index, gzip, browse with and without archives, templates, markdown, proxy, fastcgi, redir) x ~250 request targets (spellings of protected names, rewrite triggers, archive queries) x methods x Accept-Encoding x credentials {none, wrong user, wrong password, valid}; unique tokens in every protected file and backend reply; valid-credential responses compared with the unprotected site; distinct_nontrivial = outcome classes")
 	kit.Init()
 	kit.Log.Off.Store(true)
 	base := kit.TempDir("c03")
@@ -140,7 +141,9 @@ func main() {
 	}
 	go fcgi.Serve(fln, http.HandlerFunc(func(w http.ResponseWriter, r *http.Request) {
 		env := fcgi.ProcessEnv(r)
-		fmt.Fprintf(w, "responder says FTOK[%s]END", env["SCRIPT_NAME"])
+		// SCRIPT_NAME is consumed by net/http/fcgi; the script the responder would execute is SCRIPT_FILENAME
+		script := strings.TrimPrefix(filepath.ToSlash(env["SCRIPT_FILENAME"]), filepath.ToSlash(root))
+		fmt.Fprintf(w, "responder says FTOK[%s]END", path.Clean("/"+script))
 	}))
 	defer pln.Close()
 	defer fln.Close()
@@ -172,6 +175,7 @@ func main() {
 		"proxy /secret unix:" + psock,
 		"fastcgi /secret unix:" + fsock + " {\n\t\text .php\n\t\tsplit .php\n\t\tindex i.php\n\t}",
 		"redir /old /secret/s.txt",
+		"fastcgi / unix:" + fsock + " {\n\t\text .php\n\t\tsplit .php\n\t\tindex i.php\n\t}",
 	}
 	maxSub := 2
 	if rep.Thorough() {
@@ -184,7 +188,7 @@ func main() {
 		for _, i := range idx {
 			seen[strings.Fields(menu[i])[0]]++
 		}
-		if seen["browse"] > 1 || seen["tryfiles"] > 1 || seen["proxy"] > 1 {
+		if seen["browse"] > 1 || seen["tryfiles"] > 1 || seen["proxy"] > 1 || seen["fastcgi"] > 1 {
 			return
 		}
 		subsets = append(subsets, idx)
@@ -209,6 +213,13 @@ func main() {
 		add(n + "/")                                               // trailing slash
 		add(strings.Replace(n, "/secret", "\\secret", 1))          // backslash (rejected by net/http if invalid)
 		add(n + "?archive=zip")
+		// suffixes some handlers strip before resolving the name
+		add(n + ".")
+		add(n + "%20")
+		add(n + "/.")
+		add(n + "/..")
+		add(n + "/...")
+		add(n + "/..%20")
 	}
 	for _, t := range []string{"/", "/pub", "/pub/p.txt", "/pub2", "/r/s.txt", "/r/sub/deep.txt", "/r/../secret/s.txt", "/s", "/old", "/?archive=zip", "/?archive=tar.gz", "/pub/?archive=zip", "/home.html", "/nothing", "/secret?archive=zip", "/secret/?archive=tar.gz", "/secret/sub/?archive=zip", "/r/?archive=zip", "/r/", "/pub/../secret/", "/secret/sub/"} {
 		add(t)
@@ -460,5 +471,82 @@ func main() {
 		}
 		return true
 	})
+	htpasswdSites(rep, base, auth)
 	rep.Finish()
+}
+
+// htpasswdSites: password files are per site. Two sites with different roots name their password file by the
+// same root-relative name; each must accept exactly its own file's password, whether the sites are loaded
+// together or one configuration after the other in the same process, in either order.
+func htpasswdSites(rep *kit.Report, base string, auth func(u, p string) string) {
+	sha := func(pw string) string {
+		h := sha1.Sum([]byte(pw))
+		return "{SHA}" + base64.StdEncoding.EncodeToString(h[:])
+	}
+	type site struct{ host, root, pw, tok string }
+	var sites []site
+	for _, n := range []string{"a", "b"} {
+		st := site{host: n + ".test:8080", root: filepath.Join(base, "hp-"+n), pw: "pw-of-" + n}
+		st.tok = kit.Token("hp-" + n)
+		kit.WriteFile(st.root, "secret/s.txt", st.tok)
+		kit.WriteFile(st.root, "pw", "u:"+sha(st.pw)+"\n")
+		sites = append(sites, st)
+	}
+	block := func(st site, abs bool) string {
+		name := "pw"
+		if abs {
+			name = filepath.Join(st.root, "pw")
+		}
+		return fmt.Sprintf("%s {\n\troot %s\n\tbasicauth /secret u htpasswd=%s\n}\n", st.host, st.root, name)
+	}
+	probe := func(cf string, l *kit.Loaded, present []site) {
+		for _, st := range present {
+			for _, cr := range []struct{ name, hdr string }{{"none", ""}, {"own-password", auth("u", st.pw)}, {"password-of-site-a", auth("u", sites[0].pw)}, {"password-of-site-b", auth("u", sites[1].pw)}} {
+				var hdr []string
+				if cr.hdr != "" {
+					hdr = append(hdr, cr.hdr)
+				}
+				raw := kit.Get("GET", "/secret/s.txt", st.host, hdr...)
+				rec, pv, _ := kit.Serve(l.Server(""), raw)
+				rep.Eval(1)
+				valid := cr.hdr == auth("u", st.pw)
+				got := strings.Contains(rec.Body.String(), st.tok)
+				switch {
+				case pv != nil:
+					rep.Violation("C03/panic", fmt.Sprint(pv), c03case{cf, raw, 0, nil, ""})
+				case !valid && got:
+					rep.Violation("C03/disclosure/htpasswd-of-another-site-accepted", fmt.Sprintf("%s served its protected file to credentials=%s", st.host, cr.name), c03case{cf, raw, rec.Status, []string{"/secret/s.txt"}, "two sites name their password file `pw` relative to different roots"})
+				case valid && !(rec.Status == 200 && got):
+					rep.Violation("C03/valid-credentials-refused/htpasswd-per-site", fmt.Sprintf("%s answered %d to its own valid password", st.host, rec.Status), c03case{cf, raw, rec.Status, nil, "two sites name their password file `pw` relative to different roots"})
+				}
+				rep.Class("htpasswd-two-sites/" + map[bool]string{true: "served-with-valid-credentials", false: "challenged-401"}[valid])
+			}
+		}
+	}
+	for _, abs := range []bool{false} { // (the name is always taken relative to the site root)
+		// together
+		for _, order := range [][]int{{0, 1}, {1, 0}} {
+			cf := block(sites[order[0]], abs) + block(sites[order[1]], abs)
+			l, err := kit.Load(cf, filepath.Join(base, "Casketfile-hp"))
+			if err != nil {
+				rep.Broken("htpasswd sites: %v\n%s", err, cf)
+			}
+			probe(cf, l, sites)
+			l.Close()
+		}
+		// one configuration after the other, same process
+		for _, order := range [][]int{{0, 1}, {1, 0}, {0, 1, 0}} {
+			desc := ""
+			for _, i := range order {
+				cf := block(sites[i], abs)
+				desc += cf
+				l, err := kit.Load(cf, filepath.Join(base, "Casketfile-hp"))
+				if err != nil {
+					rep.Broken("htpasswd sites: %v\n%s", err, cf)
+				}
+				probe("(loaded one after the other) "+desc, l, []site{sites[i]})
+				l.Close()
+			}
+		}
+	}
 }
